@@ -3,6 +3,26 @@
 use crate::dynio::*;
 use std::fs::File;
 use std::io::{BufWriter, Write};
+use std::sync::atomic::{AtomicU64, Ordering};
+
+/// number of events emitted so far; the watchdog thread turns a library call
+/// that does not return into exit code 3 (the trace written so far is the replay)
+pub static PROGRESS: AtomicU64 = AtomicU64::new(0);
+
+pub fn start_watchdog(secs: u64) {
+    std::thread::spawn(move || {
+        let mut last = u64::MAX;
+        loop {
+            std::thread::sleep(std::time::Duration::from_secs(secs));
+            let now = PROGRESS.load(Ordering::Relaxed);
+            if now == last {
+                eprintln!("watchdog: no event for {} s after event {}", secs, now);
+                std::process::exit(3);
+            }
+            last = now;
+        }
+    });
+}
 
 pub struct Tr {
     out: BufWriter<File>,
@@ -52,6 +72,11 @@ impl Ev {
         self.s.push(']');
         self
     }
+    /// a pre-rendered JSON value
+    pub fn raw(mut self, k: &str, json: &str) -> Ev {
+        self.s.push_str(&format!(",\"{}\":{}", k, json));
+        self
+    }
     pub fn ints(mut self, k: &str, v: &[i64]) -> Ev {
         self.s.push_str(&format!(",\"{}\":[", k));
         for (i, b) in v.iter().enumerate() {
@@ -85,7 +110,11 @@ impl Tr {
     pub fn emit(&mut self, e: Ev) {
         self.out.write_all(e.s.as_bytes()).unwrap();
         self.out.write_all(b"}\n").unwrap();
+        // keep the file current: if the next library call never returns, the
+        // prefix on disk is the replay
+        self.out.flush().unwrap();
         self.events += 1;
+        PROGRESS.fetch_add(1, Ordering::Relaxed);
     }
     pub fn new_id(&mut self) -> i64 {
         let i = self.next_id;
